@@ -54,9 +54,19 @@ AuxInit == [rem      |-> [d \in Devs |-> 0],          \* C06: operational time s
             arr      |-> [d \in Devs |-> <<>>],       \* C04: arrival times per station
             cost     |-> [d \in Devs |-> 0],          \* C16: summed value of supplied parts at supply
             rev      |-> [d \in Devs |-> 0],          \* C16: summed value of received parts at receipt
+            idle     |-> [d \in Devs |-> 0],          \* C08: since when the device has been idle (empty and operational)
+            inSeq    |-> [d \in Devs |-> <<>>],       \* C17: leaf parts in arrival order
+            outSeq   |-> [d \in Devs |-> <<>>],       \* C17: leaf parts in leaving order
             steps    |-> <<0, 0>>]                    \* C03: <<instant, events dispatched in it>>
 
 Supplied(pre, post, s) == post.dev[s].supplied - pre.dev[s].supplied
+FreeDev(S, d) == S.dev[d].inp = 0 /\ S.dev[d].out = 0 /\ S.dev[d].buf = <<>>
+(* leaves of the items device d received in this step, in arrival order (as they were before the step) *)
+ArrivedLeaves(pre, ev, d) ==
+    LET rc == Occ(ev, "recv", d) IN
+    LET RECURSIVE cat(_)
+        cat(i) == IF i > Len(rc) THEN <<>> ELSE LeavesOf(pre, rc[i][3]) \o cat(i + 1)
+    IN cat(1)
 
 (* The cycle time owed to a part is decided by the configuration and the public calls made so far:   *)
 (* cycle time in effect after the receive callbacks, plus the one-shot offsets booked since the last *)
@@ -92,6 +102,13 @@ AuxNext(aux, pre, ev, post) ==
      cost |-> [d \in Devs |-> IF d \in Sources /\ Supplied(pre, post, d) > 0 /\ pre.dev[d].out # 0
                               THEN aux.cost[d] + ValueOf(pre, pre.dev[d].out) ELSE aux.cost[d]],
      rev |-> [d \in Devs |-> aux.rev[d] + SeqSum([i \in DOMAIN Occ(ev, "recv", d) |-> Occ(ev, "recv", d)[i][5]])],
+     idle |-> [d \in Devs |->
+                 IF d \in HoldDevs /\ ( (~FreeDev(pre, d) /\ FreeDev(post, d))
+                                         \/ (d \in Procs /\ pre.dev[d].down /\ ~post.dev[d].down) )
+                 THEN post.now ELSE aux.idle[d]],
+     inSeq |-> [d \in Devs |-> IF Kind(d) = "batcher" THEN aux.inSeq[d] \o ArrivedLeaves(pre, ev, d) ELSE <<>>],
+     outSeq |-> [d \in Devs |-> IF Kind(d) = "batcher" /\ pre.dev[d].out # 0 /\ post.dev[d].out # pre.dev[d].out
+                                THEN aux.outSeq[d] \o LeavesOf(pre, pre.dev[d].out) ELSE aux.outSeq[d]],
      steps |-> IF post.now > pre.now THEN <<post.now, 1>> ELSE <<post.now, aux.steps[2] + (IF IsStep(ev) THEN 1 ELSE 0)>>]
 
 (***************************************************************************)
@@ -344,7 +361,82 @@ C16(pre, ev, post, aux, jpost) ==
     \cup C("C16.BatchIsSumOfParts", \A p \in DOMAIN post.part : post.part[p].batch => post.part[p].value = SumValue(post, post.part[p].leaves, 1))
     \cup C("C16.NetValueIsSumOfAssets", jpost.net = SeqSum([d \in Devs |-> post.dev[d].value]) + jpost.mtvalue)
 
+(***************************************************************************)
+(* C08  routing fidelity                                                   *)
+(***************************************************************************)
+IsSuffix(a, b) == Len(a) <= Len(b) /\ SubSeq(b, Len(b) - Len(a) + 1, Len(b)) = a
+IsPrefixOf(a, b) == Len(a) <= Len(b) /\ SubSeq(b, 1, Len(a)) = a
+Connected(a, b) == a \in Range(cfg.devs[b].ups)          \* from the configuration, not from the objects
+Routable(h) == \A i \in 1..(Len(h) - 1) : Connected(h[i], h[i + 1])
+HolderOf(S, p) == {d \in Devs : p \in Range(ItemsOf(S, d)) \/ (Kind(d) = "sink" /\ p \in Range(S.dev[d].collected))}
+SingleSlotKind(d) == Kind(d) \in {"handler", "processor", "sink"}
+C08(pre, ev, post, aux) ==
+    C("C08.HistoryFollowsConnections",
+      \A p \in DOMAIN post.part : (~post.part[p].batch \/ IsPrefixOf(<<1>>, <<1>>)) =>
+            (IF post.part[p].batch /\ post.part[p].hist # <<>> /\ Kind(post.part[p].hist[1]) # "source"
+             THEN Routable(post.part[p].hist)        \* a batch made by a batcher starts its history there
+             ELSE Routable(post.part[p].hist) /\ (post.part[p].hist # <<>> => Kind(post.part[p].hist[1]) = "source")))
+    \cup C("C08.HistoryEndsAtHolder",
+           \A p \in DOMAIN post.part : \A d \in HolderOf(post, p) :
+                \/ (post.part[p].batch /\ post.part[p].hist = <<>> /\ Kind(d) = "batcher")    \* a batch just made there
+                \/ (post.part[p].hist # <<>> /\ post.part[p].hist[Len(post.part[p].hist)] = d))
+    \cup C("C08.LeavesShareTheBatchHistory",
+           \A b \in DOMAIN post.part : post.part[b].batch =>
+                \A i \in DOMAIN post.part[b].leaves : IsSuffix(post.part[b].hist, post.part[post.part[b].leaves[i]].hist))
+    \cup C("C08.HistoryOnlyGrows",
+           \A p \in DOMAIN pre.part : IsPrefixOf(pre.part[p].hist, post.part[p].hist))
+    \cup C("C08.GatesRespected",
+           \A p \in DOMAIN post.part : ~post.part[p].batch =>
+                LET h0 == IF p \in DOMAIN pre.part THEN pre.part[p].hist ELSE <<>>
+                    h1 == post.part[p].hist IN
+                \A i \in (Len(h0) + 1)..Len(h1) : Kind(h1[i]) = "gate" => Pred(post, h1[i], p))
+    \cup C("C08.BlockedInputRefuses",
+           \A d \in Devs : (pre.dev[d].blocked /\ post.dev[d].blocked) =>
+                /\ Occ(ev, "recv", d) = <<>>
+                /\ \A p \in DOMAIN post.part :
+                      LET h0 == IF p \in DOMAIN pre.part THEN pre.part[p].hist ELSE <<>> IN
+                      \A i \in (Len(h0) + 1)..Len(post.part[p].hist) : post.part[p].hist[i] # d)
+    \cup C("C08.CollectedInArrivalOrder",
+           \A d \in Sinks : /\ IsPrefixOf(pre.dev[d].collected, post.dev[d].collected)
+                            /\ SubSeq(post.dev[d].collected, Len(pre.dev[d].collected) + 1, Len(post.dev[d].collected))
+                                  = [i \in DOMAIN Occ(ev, "recv", d) |-> Occ(ev, "recv", d)[i][3]])
+    \cup C("C08.IdleLongestReceives",
+           \* one hand-over from the dispatching device u to a single-slot x: no other single-slot downstream of u
+           \* that would have taken the part had been idle longer (or equally long but earlier in u's list)
+           (IsStep(ev) /\ ev.kind = "pass" /\ ~ev.cancelled /\ Len(ev.occ) >= 1 /\ ev.occ[1][1] = "recv" /\ ev.asset \in Devs) =>
+              LET u == ev.asset
+                  x == ev.occ[1][2]
+                  p == ev.occ[1][3]
+                  ds == pre.down[u]
+                  Pos(y) == CHOOSE i \in DOMAIN ds : ds[i] = y IN
+              (x \in Range(ds) /\ SingleSlotKind(x) /\ p \in DOMAIN pre.part) =>
+                 \A y \in Range(ds) \ {x} :
+                    (SingleSlotKind(y) /\ WouldTake(pre, y, p, 0)) =>
+                        (aux.idle[x] < aux.idle[y] \/ (aux.idle[x] = aux.idle[y] /\ Pos(x) < Pos(y))))
+
+(***************************************************************************)
+(* C17  batching keeps order and exact batch sizes                         *)
+(***************************************************************************)
+Batchers == {d \in Devs : Kind(d) = "batcher"}
+C17(pre, ev, post, aux) ==
+    LET a1 == AuxNext(aux, pre, ev, post) IN
+    C("C17.SequenceIsKept",
+      \A b \in Batchers : a1.inSeq[b] = a1.outSeq[b] \o LeavesOf(post, post.dev[b].out) \o post.dev[b].inprog
+                                         \o LeavesOf(post, post.dev[b].inp))
+    \cup C("C17.ExactBatchSize",
+           \A b \in Batchers : (post.dev[b].out # 0 /\ post.dev[b].out # pre.dev[b].out) =>
+                IF cfg.devs[b].bsize > 0
+                THEN post.part[post.dev[b].out].batch /\ Len(post.part[post.dev[b].out].leaves) = cfg.devs[b].bsize
+                ELSE ~post.part[post.dev[b].out].batch)
+    \cup C("C17.InProgressBelowSize", \A b \in Batchers : cfg.devs[b].bsize > 0 => Len(post.dev[b].inprog) < cfg.devs[b].bsize)
+    \cup C("C17.AcceptsOnlyWhenEmpty",
+           \A b \in Batchers : Occ(ev, "recv", b) # <<>> => (pre.dev[b].inp = 0 /\ pre.dev[b].out = 0))
+    \cup C("C17.BuffersAndSinksCountEveryPart",
+           /\ \A d \in Sinks : post.dev[d].count - pre.dev[d].count = Len(ArrivedLeaves(pre, ev, d))
+           /\ \A d \in Buffers : post.dev[d].level = BufLeaves(post, d))
+
 ObsClauses(pre, ev, post, aux, jpost, jpre) ==
+    C08(pre, ev, post, aux) \cup C17(pre, ev, post, aux) \cup
     C02(pre, ev, post, aux) \cup C03(pre, ev, post, aux) \cup C04(pre, ev, post, aux) \cup C05(pre, ev, post, aux)
     \cup C06(pre, ev, post, aux) \cup C11(pre, ev, post, aux) \cup C13(pre, ev, post, aux) \cup C15(pre, ev, post, aux)
     \cup C16(pre, ev, post, aux, jpost)
